@@ -72,7 +72,7 @@ class Monitored:
 
 async def monitored_random_trace(rng, *, nsess, nsteps, boxes=(1,), idle=True,
                                  readonly_sessions=(), weights=None, checkpoint_every=6,
-                                 learn=True):
+                                 learn=True, flipflop=0.0):
     mon = Monitored(checkpoint_every)
     sessions = list(range(1, nsess + 1))
     run = await StoreRun().start(sessions)
@@ -80,7 +80,7 @@ async def monitored_random_trace(rng, *, nsess, nsteps, boxes=(1,), idle=True,
     trace.setup = run.setup_labels()
     from .store_gen import TraceGen
     gen = TraceGen(rng, run, sessions, boxes=boxes, idle=idle,
-                   readonly_sessions=readonly_sessions, weights=weights)
+                   readonly_sessions=readonly_sessions, weights=weights, flipflop=flipflop)
     hooks = (mon.hook,)
     for s in sessions:
         box = rng.choice(list(boxes))
@@ -135,10 +135,17 @@ def labels_parse(text: str):
 
 # ------------------------------------------------------- exhaustive schedules
 ALPHABETS = {
-    'expunge-vs-fetch': [
+    # all program pairs x all 20 schedules in the thorough tier
+    'core3': [
         ('store', [1], False, 'add', [2], False),        # STORE 1 +FLAGS (\Deleted)
         ('expunge', None),                               # EXPUNGE
         ('fetch', [(1, '*')], False, False, False),      # FETCH 1:* (FLAGS)   (EXPUNGE forbidden)
+    ],
+    # sampled program pairs x all 20 schedules
+    'expunge-vs-fetch': [
+        ('store', [1], False, 'add', [2], False),
+        ('expunge', None),
+        ('fetch', [(1, '*')], False, False, False),
         ('append', 1, [([5], 7)], None),                 # APPEND INBOX
     ],
     'uid-and-silent': [
@@ -148,6 +155,7 @@ ALPHABETS = {
         ('move', [1], False, 2, None),                   # MOVE 1 Sent
     ],
 }
+EXHAUSTIVE_ALPHABETS = ('core3',)
 
 
 def schedules(n1: int, n2: int):
@@ -192,19 +200,34 @@ def report_trace(ctx, name: str, trace: Trace, mon: Monitored, clauses, meta: di
         ctx.disagreement(name + ':' + p['kind'], {**p, 'labels': labels_repr(labels)[:1500]})
 
 
+class Packed:
+    """A recorded trace reduced to what the evaluation and its diagnosis need
+    (the Gallina case term, labels, responses): the per-step observations of
+    tens of thousands of schedule traces are not kept in memory."""
+
+    def __init__(self, trace: Trace, light: bool = False) -> None:
+        self.case = SE.enc_case(trace.setup, trace.steps, light=light)
+        self.steps = [(lab, resp, None) for lab, resp, _ in trace.steps]
+
+    def labels(self):
+        return [s[0] for s in self.steps]
+
+
 class CaseEval:
     """Evaluation of a batch of traces by Coq (chk_trace), started in a
     background thread so that the next batch can run on the server meanwhile;
     `finish` (main thread) books the result into ctx exactly like
     ctx.run_cases and reports disagreements."""
 
-    def __init__(self, ctx, name: str, traces: list[Trace], *, shard: int = 10, jobs: int = 12) -> None:
+    def __init__(self, ctx, name: str, traces: list[Trace], *, shard: int = 10, jobs: int = 12,
+                 light: bool = False) -> None:
         import threading
         from . import coqrun
         self.ctx = ctx
         self.name = name
         self.traces = traces
-        self.cases = [SE.enc_case(t.setup, t.steps) for t in traces]
+        self.cases = [t.case if isinstance(t, Packed) else SE.enc_case(t.setup, t.steps, light=light)
+                      for t in traces]
         self.res = None
         self.exc = None
 
